@@ -1136,6 +1136,12 @@ func (w *c05World) runSeq(s int, nodes []c05Node, nsteps int, next func(int) *c0
 				w.emitFs("fsop", s, i, op, beforeA, snapA, a.cat)
 				w.emitFs("fsspec", s, i, op, beforeB, snapB, b.cat)
 			}
+			// the model's observers - the kernel's path walk (lstat / stat) and the children of a directory - against what Lstat,
+			// Stat and ReadDir reported, on both sides
+			if (op.name == "stat" || op.name == "lstat" || op.name == "readdir") && c05PlainPath.MatchString(op.p1) {
+				w.emitFsObs("fsop", s, i, op, beforeA, a.cat, a.val)
+				w.emitFsObs("fsspec", s, i, op, beforeB, b.cat, b.val)
+			}
 			changed := nkA != keyA || nkB != keyB
 			if changed {
 				c.Stat("tree_changed")
@@ -1273,6 +1279,60 @@ func (w *c05World) emitFs(kind string, seq, step int, op *c05Op, before, after m
 	c.Obs(n, "res="+cat, "tree="+c05TreeStr(after))
 	c.Oracle(n, true, "")
 	if strings.Contains(p1, "/") {
+		c.NT(n)
+	}
+	c.Stat(kind + "_" + op.name)
+}
+
+// c05KindOf: the kind letter of a fiStr item "name|mode|size|mtime"
+func c05KindOf(item string) (name, kind string) {
+	f := strings.Split(item, "|")
+	if len(f) < 2 || len(f[1]) == 0 {
+		return item, "?"
+	}
+	switch f[1][0] {
+	case 'd':
+		return f[0], "d"
+	case 'L':
+		return f[0], "l"
+	case '-':
+		return f[0], "f"
+	}
+	return f[0], "?"
+}
+
+func (w *c05World) emitFsObs(kind string, seq, step int, op *c05Op, before map[string]c05Ent, cat, val string) {
+	c := w.c
+	n := c.Case(kind, kvs("cfg", w.cfg), kvi("seq", seq), kvi("step", step), kvs("op", op.name), kvs("path", op.p1), kvs("path2", "-"), kvs("target", "text"), kvs("tree", c05TreeStr(before)))
+	if cat == "perm" {
+		c.Stat(kind + "_permission_outcomes_not_compared")
+		c.Oracle(n, true, "")
+		return
+	}
+	obs := "res=" + cat
+	if cat == "ok" {
+		if op.name == "readdir" {
+			var ents []string
+			if val != "" {
+				for _, it := range strings.Fields(val) {
+					nm, k := c05KindOf(it)
+					ents = append(ents, nm+":"+k)
+				}
+			}
+			sort.Strings(ents)
+			e := strings.Join(ents, ";")
+			if e == "" {
+				e = "-"
+			}
+			obs += " ents=" + e
+		} else {
+			_, k := c05KindOf(val)
+			obs += " kind=" + k
+		}
+	}
+	c.Obs(n, strings.Fields(obs)...)
+	c.Oracle(n, true, "")
+	if strings.Contains(op.p1, "/") {
 		c.NT(n)
 	}
 	c.Stat(kind + "_" + op.name)
